@@ -23,7 +23,7 @@ LEVEL_TEXT = (
 LEVEL_NOTE = "Trusted: networkx traversal primitives (descendants/ancestors/SCC), CPython, Hypothesis. Graphs <= 6/8 nodes; antichain brute force <= 14 weighted edges."
 RULE = (
     "case = (graph kind dag|digraph, graph with planted conserving flow on 'flow', op list); ops drawn by the state machine: "
-    "reach/reaching(node), scc_edge(edge), maxreach, width(ignored subset), antichain(weight kind), peel, bottleneck. "
+    "reach/reaching(node), reach_edges/reaching_edges(node, stDAG), scc_edge(edge), maxreach, width(ignored subset), antichain(weight kind), peel, bottleneck. "
     "non-trivial = >= 6 queries incl. a repeated one AND (digraph with >= 2 non-trivial SCCs or an antichain of size >= 2 "
     "or a peel with >= 2 paths); distinct = case hash."
 )
@@ -114,6 +114,21 @@ class Interp:
             want = _reach(H, v) if name == "reach" else _reaching(H, v)
             if set(got) != want:
                 self.fail(f"{name}_wrong", f"{name}({v!r}) = {sorted(map(str, got))}, BFS says {sorted(map(str, want))}")
+        elif name in ("reach_edges", "reaching_edges"):
+            # stDAG only: edges reachable from a node / edges from which the node is reached
+            if self.kind != "dag":
+                return
+            v = self.nodes[op[1] % len(self.nodes)]
+            if name == "reach_edges":
+                got = stg.reachable_edges_from[v]
+                rs = _reach(H, v)
+                want = {(x, y) for (x, y) in H.edges() if x in rs}
+            else:
+                got = stg.reachable_edges_rev_from[v]
+                rs = _reaching(H, v)
+                want = {(x, y) for (x, y) in H.edges() if y in rs}
+            if set(got) != want:
+                self.fail(f"{name}_wrong", f"{name}({v!r}) = {sorted(map(str, got))}, search says {sorted(map(str, want))}")
         elif name == "scc_edge":
             if self.kind != "digraph":
                 return
@@ -320,6 +335,10 @@ def make_machine(tier, rec, raise_on_new):
         @rule(i=st.integers(0, 9))
         def reaching(self, i):
             self._do(["reaching", i])
+
+        @rule(i=st.integers(0, 9), back=st.booleans())
+        def reach_edges(self, i, back):
+            self._do(["reaching_edges" if back else "reach_edges", i])
 
         @rule(i=st.integers(0, 15))
         def scc_edge(self, i):
